@@ -12,6 +12,7 @@ import (
 	"reflect"
 	"runtime/debug"
 	"strings"
+	"time"
 
 	jose "github.com/go-jose/go-jose/v4"
 	"github.com/zitadel/oidc/v3/pkg/client/rp"
@@ -152,10 +153,12 @@ func isNil(v any) bool {
 
 // instance is ONE long-lived verifier / key set / provider; every call of a case goes to it.
 type instance struct {
-	// setKeys: the key set the application / JWKS endpoint / storage serves from now on
-	setKeys func(keys, keys2 []KeyEntry)
-	// verify presents the token (times: how often in a row; >1 only for the warm rp-remote calls)
-	verify func(tok string, who string, times int, res *vkit.Result) []outcome
+	// setKeys: the key set the application / JWKS endpoint / storage serves from now on (target: which of the key sets
+	// of a provider - storage | access | hint -, "" for the kinds with one key set)
+	setKeys func(target string, keys, keys2 []KeyEntry)
+	// verify presents the token to the verifier of `kind` (the case's kind; a provider has two verifiers and a later call
+	// may go to the other one) (times: how often in a row; >1 only for the warm rp-remote calls)
+	verify func(kind, tok string, who string, times int, res *vkit.Result) []outcome
 	// mayHold (rp-remote): key sets the instance may still verify against besides the one served now (documented cache)
 	mayHold func() [][]KeyEntry
 }
@@ -171,7 +174,7 @@ func newInstance(c Case) *instance {
 		if c.Kind == kRPStatic {
 			sks := &staticKeySet{keys: jwks(c.Keys), multi: c.MultiKS}
 			ks = sks
-			in.setKeys = func(keys, _ []KeyEntry) { sks.keys = jwks(keys) }
+			in.setKeys = func(_ string, keys, _ []KeyEntry) { sks.keys = jwks(keys) }
 		} else {
 			tr = &jwksTransport{}
 			tr.set(c.Keys)
@@ -181,7 +184,7 @@ func newInstance(c Case) *instance {
 			} else {
 				ks = rp.NewRemoteKeySet(hc, issuer+"/keys")
 			}
-			in.setKeys = func(keys, _ []KeyEntry) { tr.set(keys) }
+			in.setKeys = func(_ string, keys, _ []KeyEntry) { tr.set(keys) }
 			// The cache holds the answer of the last download. The goroutine that stores it (and retires the finished
 			// download) may lag behind the caller it woke up: the answer before the last one may then still be in the
 			// cache, and the last answer - even one without keys - may be handed out once more instead of a new download
@@ -199,7 +202,7 @@ func newInstance(c Case) *instance {
 			opts = append(opts, rp.WithSupportedSigningAlgorithms(c.Algs...))
 		}
 		v := rp.NewIDTokenVerifier(issuer, rpClient, ks, opts...)
-		in.verify = func(tok, _ string, times int, res *vkit.Result) []outcome {
+		in.verify = func(_, tok, _ string, times int, res *vkit.Result) []outcome {
 			var outs []outcome
 			for i := 0; i < times; i++ {
 				before := 0
@@ -230,61 +233,53 @@ func newInstance(c Case) *instance {
 		}
 		return in
 
-	case kOPAccess, kProvAcc:
+	case kOPAccess, kOPHint, kProvAcc, kProvHint:
 		st := newStore(c)
-		var verifier func() *op.AccessTokenVerifier
-		if c.Kind == kOPAccess {
+		// one provider (or one pair of stand-alone verifiers over one op.OpenIDKeySet); a call goes to its access-token or
+		// to its id_token_hint verifier
+		var accessV func() *op.AccessTokenVerifier
+		var hintV func() *op.IDTokenHintVerifier
+		setKeys := func(_ string, keys, keys2 []KeyEntry) { storeKeys(st, c.Kind, keys, keys2) }
+		if c.Kind == kOPAccess || c.Kind == kOPHint {
 			ks := &op.OpenIDKeySet{Storage: st.Shaped(vkit.FullCaps)}
-			var opts []op.AccessTokenVerifierOpt
+			var aopts []op.AccessTokenVerifierOpt
+			var hopts []op.IDTokenHintVerifierOpt
 			if len(c.Algs) > 0 {
-				opts = append(opts, op.WithSupportedAccessTokenSigningAlgorithms(c.Algs...))
+				aopts = append(aopts, op.WithSupportedAccessTokenSigningAlgorithms(c.Algs...))
+				hopts = append(hopts, op.WithSupportedIDTokenHintSigningAlgorithms(c.Algs...))
 			}
-			v := op.NewAccessTokenVerifier(issuer, ks, opts...)
-			verifier = func() *op.AccessTokenVerifier { return v }
+			av, hv := op.NewAccessTokenVerifier(issuer, ks, aopts...), op.NewIDTokenHintVerifier(issuer, ks, hopts...)
+			accessV = func() *op.AccessTokenVerifier { return av }
+			hintV = func() *op.IDTokenHintVerifier { return hv }
 		} else {
-			p := buildProvider(st, "provider").Provider
+			sut, set := buildProviderFor(st, c, "provider")
+			p := sut.Provider
 			ctx = op.ContextWithIssuer(ctx, issuer)
-			verifier = func() *op.AccessTokenVerifier { return p.AccessTokenVerifier(ctx) } // as the handlers obtain it, per request
+			accessV = func() *op.AccessTokenVerifier { return p.AccessTokenVerifier(ctx) } // as the handlers obtain it, per request
+			hintV = func() *op.IDTokenHintVerifier { return p.IDTokenHintVerifier(ctx) }
+			setKeys = set
 		}
 		return &instance{
-			setKeys: func(keys, keys2 []KeyEntry) { storeKeys(st, c.Kind, keys, keys2) },
-			verify: func(tok, _ string, _ int, res *vkit.Result) []outcome {
-				claims, err := op.VerifyAccessToken[*oidc.AccessTokenClaims](ctx, tok, verifier())
-				o := outcome{Accepted: err == nil, Err: errStr(err)}
-				if err == nil {
-					o.View = viewOfObj(c.Kind, claims)
-				} else if !isNil(claims) {
-					res.Fail("C02:claims-with-error:"+c.Kind, "claims returned together with error %v", err)
-				}
-				return one(o)
-			}}
-
-	case kOPHint, kProvHint:
-		st := newStore(c)
-		var verifier func() *op.IDTokenHintVerifier
-		if c.Kind == kOPHint {
-			ks := &op.OpenIDKeySet{Storage: st.Shaped(vkit.FullCaps)}
-			var opts []op.IDTokenHintVerifierOpt
-			if len(c.Algs) > 0 {
-				opts = append(opts, op.WithSupportedIDTokenHintSigningAlgorithms(c.Algs...))
-			}
-			v := op.NewIDTokenHintVerifier(issuer, ks, opts...)
-			verifier = func() *op.IDTokenHintVerifier { return v }
-		} else {
-			p := buildProvider(st, "provider").Provider
-			ctx = op.ContextWithIssuer(ctx, issuer)
-			verifier = func() *op.IDTokenHintVerifier { return p.IDTokenHintVerifier(ctx) }
-		}
-		return &instance{
-			setKeys: func(keys, keys2 []KeyEntry) { storeKeys(st, c.Kind, keys, keys2) },
-			verify: func(tok, _ string, _ int, res *vkit.Result) []outcome {
-				claims, err := op.VerifyIDTokenHint[*oidc.IDTokenClaims](ctx, tok, verifier())
-				o := outcome{Accepted: err == nil, Err: errStr(err)}
-				if err == nil {
-					o.View = viewOfObj(c.Kind, claims)
-				} else if !isNil(claims) {
-					// claims + IDTokenHintExpiredError is a documented combination, but nothing here is expired
-					res.Fail("C02:claims-with-error:"+c.Kind, "claims returned together with error %v", err)
+			setKeys: setKeys,
+			verify: func(kind, tok, _ string, _ int, res *vkit.Result) []outcome {
+				var o outcome
+				if kind == kOPAccess || kind == kProvAcc {
+					claims, err := op.VerifyAccessToken[*oidc.AccessTokenClaims](ctx, tok, accessV())
+					o = outcome{Accepted: err == nil, Err: errStr(err)}
+					if err == nil {
+						o.View = viewOfObj(kind, claims)
+					} else if !isNil(claims) {
+						res.Fail("C02:claims-with-error:"+kind, "claims returned together with error %v", err)
+					}
+				} else {
+					claims, err := op.VerifyIDTokenHint[*oidc.IDTokenClaims](ctx, tok, hintV())
+					o = outcome{Accepted: err == nil, Err: errStr(err)}
+					if err == nil {
+						o.View = viewOfObj(kind, claims)
+					} else if !isNil(claims) {
+						// claims + IDTokenHintExpiredError is a documented combination, but nothing here is expired
+						res.Fail("C02:claims-with-error:"+kind, "claims returned together with error %v", err)
+					}
 				}
 				return one(o)
 			}}
@@ -299,13 +294,13 @@ func newInstance(c Case) *instance {
 		if c.Kind == kAssert {
 			st := newStore(c)
 			v = op.NewJWTProfileVerifier(st, issuer, 0, 0, vopts...)
-			in.setKeys = func(keys, keys2 []KeyEntry) { storeKeys(st, c.Kind, keys, keys2) }
+			in.setKeys = func(_ string, keys, keys2 []KeyEntry) { storeKeys(st, c.Kind, keys, keys2) }
 		} else {
 			sks := &staticKeySet{keys: jwks(c.Keys), multi: c.MultiKS}
 			v = op.NewJWTProfileVerifierKeySet(sks, issuer, 0, 0, vopts...)
-			in.setKeys = func(keys, _ []KeyEntry) { sks.keys = jwks(keys) }
+			in.setKeys = func(_ string, keys, _ []KeyEntry) { sks.keys = jwks(keys) }
 		}
-		in.verify = func(tok, _ string, _ int, res *vkit.Result) []outcome {
+		in.verify = func(_, tok, _ string, _ int, res *vkit.Result) []outcome {
 			req, err := op.VerifyJWTAssertion(ctx, tok, v)
 			o := outcome{Accepted: err == nil, Err: errStr(err)}
 			if err == nil {
@@ -321,8 +316,8 @@ func newInstance(c Case) *instance {
 		st := newStore(c)
 		storage := st.Shaped(vkit.FullCaps)
 		return &instance{
-			setKeys: func(keys, keys2 []KeyEntry) { storeKeys(st, c.Kind, keys, keys2) },
-			verify: func(tok, who string, _ int, res *vkit.Result) []outcome {
+			setKeys: func(_ string, keys, keys2 []KeyEntry) { storeKeys(st, c.Kind, keys, keys2) },
+			verify: func(_, tok, who string, _ int, res *vkit.Result) []outcome {
 				ar := &oidc.AuthRequest{ClientID: who, RedirectURI: redirect, ResponseType: oidc.ResponseTypeCode,
 					Scopes: oidc.SpaceDelimitedArray{"openid"}, State: qState, Nonce: qNonce, RequestParam: tok}
 				err := op.ParseRequestObject(ctx, ar, storage, issuer)
@@ -335,11 +330,11 @@ func newInstance(c Case) *instance {
 
 	case kReqHTTP, kHintHTTP:
 		st := newStore(c)
-		sut := buildProvider(st, c.Router)
+		sut, setKeys := buildProviderFor(st, c, c.Router)
 		ag := vkit.NewAgent(sut)
 		return &instance{
-			setKeys: func(keys, keys2 []KeyEntry) { storeKeys(st, c.Kind, keys, keys2) },
-			verify: func(tok, who string, _ int, res *vkit.Result) []outcome {
+			setKeys: setKeys,
+			verify: func(_, tok, who string, _ int, res *vkit.Result) []outcome {
 				q := url.Values{"redirect_uri": {redirect}, "response_type": {"code"}, "scope": {"openid"}, "state": {qState}, "nonce": {qNonce}}
 				if c.Kind == kReqHTTP {
 					q.Set("client_id", who)
@@ -396,6 +391,77 @@ func buildProvider(st *vkit.Store, router string) *vkit.SUT {
 	return sut
 }
 
+// buildProviderFor builds the provider of a case. Without Case.Prov: vkit.Build with its fixed option set. With it:
+// op.NewProvider with exactly the verification options the case names (key set per verifier, allowed algorithms per
+// verifier; none of them when the case names none), everything else as vkit.Build does it. The returned function changes the
+// key set `target` in force: what the storage publishes, or the application's key set object handed to the option.
+func buildProviderFor(st *vkit.Store, c Case, router string) (*vkit.SUT, func(target string, keys, keys2 []KeyEntry)) {
+	sut := buildProvider(st, router) // paths, host, spec (and the provider of the fixed option set)
+	toStorage := func(keys, keys2 []KeyEntry) { storeKeys(st, c.Kind, keys, keys2) }
+	if c.Prov == nil || !isProv(c.Kind) {
+		return sut, func(_ string, keys, keys2 []KeyEntry) { toStorage(keys, keys2) }
+	}
+	po := c.Prov
+	var aks, hks *staticKeySet
+	opts := []op.Option{op.WithLogger(vkit.DiscardLogger())}
+	if po.HasAccessKS {
+		aks = &staticKeySet{keys: jwks(po.AccessKS)}
+		opts = append(opts, op.WithAccessTokenKeySet(aks))
+	}
+	if len(po.AccessAlgs) > 0 {
+		opts = append(opts, op.WithAccessTokenVerifierOpts(op.WithSupportedAccessTokenSigningAlgorithms(po.AccessAlgs...)))
+	}
+	if po.HasHintKS {
+		hks = &staticKeySet{keys: jwks(po.HintKS)}
+		opts = append(opts, op.WithIDTokenHintKeySet(hks))
+	}
+	if len(po.HintAlgs) > 0 {
+		opts = append(opts, op.WithIDTokenHintVerifierOpts(op.WithSupportedIDTokenHintSigningAlgorithms(po.HintAlgs...)))
+	}
+	if po.Rev {
+		for i, j := 0, len(opts)-1; i < j; i, j = i+1, j-1 {
+			opts[i], opts[j] = opts[j], opts[i]
+		}
+	}
+	spec := sut.Spec
+	cfg := &op.Config{
+		DefaultLogoutRedirectURI: spec.DefaultLogoutURI,
+		CodeMethodS256:           spec.S256,
+		AuthMethodPost:           spec.Post,
+		AuthMethodPrivateKeyJWT:  spec.PKJWT,
+		GrantTypeRefreshToken:    spec.Refresh,
+		RequestObjectSupported:   spec.ReqObj,
+		DeviceAuthorization: op.DeviceAuthorizationConfig{
+			Lifetime: time.Duration(spec.Device.LifetimeS) * time.Second, PollInterval: time.Duration(spec.Device.PollS) * time.Second,
+			UserFormPath: spec.Device.UserFormPath, UserFormURL: spec.Device.UserFormURL,
+			UserCode: op.UserCodeConfig{CharSet: spec.Device.CharSet, CharAmount: spec.Device.CharAmount, DashInterval: spec.Device.DashInterval},
+		},
+	}
+	for i := range cfg.CryptoKey {
+		cfg.CryptoKey[i] = byte(i*7+3) ^ spec.CryptoKey
+	}
+	p, err := op.NewProvider(cfg, st.Shaped(spec.Caps), op.StaticIssuer(spec.Issuer), opts...)
+	if err != nil {
+		panic("harness: build provider with options: " + err.Error())
+	}
+	sut.Provider = p
+	if router == "legacy" {
+		sut.Handler = op.RegisterLegacyServer(op.NewLegacyServer(p, vkit.PristineEndpoints()), op.AuthorizeCallbackHandler(p), op.WithFallbackLogger(vkit.DiscardLogger()))
+	} else {
+		sut.Handler = p
+	}
+	return sut, func(target string, keys, keys2 []KeyEntry) {
+		switch {
+		case target == "access" && aks != nil:
+			aks.keys = jwks(keys)
+		case target == "hint" && hks != nil:
+			hks.keys = jwks(keys)
+		default:
+			toStorage(keys, keys2)
+		}
+	}
+}
+
 func validCase(c Case) string {
 	ok := false
 	for _, k := range tokenKinds {
@@ -407,6 +473,15 @@ func validCase(c Case) string {
 	all := append(append([]KeyEntry{}, c.Keys...), c.Keys2...)
 	for _, s := range c.Seq {
 		all = append(append(all, s.Keys...), s.Keys2...)
+		if s.Ver != "" && (s.Ver != "access" && s.Ver != "hint" || c.Kind != kProvAcc && c.Kind != kProvHint) {
+			return "step names a verifier the instance does not have"
+		}
+	}
+	if c.Prov != nil {
+		if !isProv(c.Kind) {
+			return "provider options without provider"
+		}
+		all = append(append(all, c.Prov.AccessKS...), c.Prov.HintKS...)
 	}
 	for _, e := range all {
 		if !knownKey(e.Key) {
@@ -443,6 +518,8 @@ func validCase(c Case) string {
 // call is one verification on the instance: the key sets in force, the token presented.
 type call struct {
 	Mut         string
+	Kind        string // verifier the call goes to (the case's kind; prov-access / prov-hint: possibly the provider's other verifier)
+	Target      string // which key set is in force for that verifier: "" | storage | access | hint
 	Keys, Keys2 []KeyEntry
 	Tok         TokSpec
 	From        int
@@ -450,14 +527,17 @@ type call struct {
 
 // plan lists the calls of a case: the first token on the initial key sets, then the steps of the sequence.
 func plan(c Case) []call {
-	cur := call{Keys: c.Keys, Keys2: c.Keys2, Tok: c.Tok}
-	out := []call{cur}
+	sets := keySets(c)
+	keys2 := c.Keys2
+	tg := targetOf(c, c.Kind)
+	out := []call{{Kind: c.Kind, Target: tg, Keys: sets[tg], Keys2: keys2, Tok: c.Tok}}
 	for _, s := range c.Seq {
-		cur.Mut, cur.From, cur.Tok = s.Mut, s.From, s.Tok
+		kind := stepKind(c, s)
+		tg := targetOf(c, kind)
 		if s.Mut != "" {
-			cur.Keys, cur.Keys2 = s.Keys, s.Keys2
+			sets[tg], keys2 = s.Keys, s.Keys2
 		}
-		out = append(out, cur)
+		out = append(out, call{Mut: s.Mut, Kind: kind, Target: tg, Keys: sets[tg], Keys2: keys2, Tok: s.Tok, From: s.From})
 	}
 	return out
 }
@@ -535,9 +615,9 @@ func run(c Case) (res *vkit.Result) {
 	ccs := make([]Case, len(calls))
 	for i, cl := range calls {
 		cc := c
-		cc.Keys, cc.Keys2, cc.Tok, cc.Seq = cl.Keys, cl.Keys2, cl.Tok, nil
+		cc.Kind, cc.Keys, cc.Keys2, cc.Tok, cc.Seq = cl.Kind, cl.Keys, cl.Keys2, cl.Tok, nil // (cc.Keys: the key set in force for the verifier of this call)
 		var base *vkit.Token
-		if j := cl.From - 1; j >= 0 && j < i && sameSigning(calls[j].Tok, cl.Tok) {
+		if j := cl.From - 1; j >= 0 && j < i && calls[j].Kind == cl.Kind && sameSigning(calls[j].Tok, cl.Tok) {
 			base = &builts[j].Genuine
 		}
 		b, err := buildTokenFrom(cc, base)
@@ -552,6 +632,12 @@ func run(c Case) (res *vkit.Result) {
 	if len(calls) > 1 {
 		res.Label("seq", fmt.Sprintf("seq:calls=%d", len(calls)))
 	}
+	if isProv(c.Kind) {
+		res.Label("prov:" + provShape(c.Prov))
+		if c.Prov != nil {
+			res.Label("prov:algs:access=" + map[bool]string{true: "default", false: "list"}[len(c.Prov.AccessAlgs) == 0] + ",hint=" + map[bool]string{true: "default", false: "list"}[len(c.Prov.HintAlgs) == 0])
+		}
+	}
 	inst := newInstance(c)
 	var infos []map[string]any
 	var keyParts []string
@@ -560,7 +646,7 @@ func run(c Case) (res *vkit.Result) {
 	for i, cl := range calls {
 		cc, b := ccs[i], builts[i]
 		if i > 0 && cl.Mut != "" {
-			inst.setKeys(cl.Keys, cl.Keys2)
+			inst.setKeys(cl.Target, cl.Keys, cl.Keys2)
 			m := cl.Mut
 			if k := strings.IndexByte(m, ':'); k >= 0 {
 				m = m[k+1:]
@@ -585,12 +671,17 @@ func run(c Case) (res *vkit.Result) {
 		if i == 0 && c.Kind == kRPRemote && c.Warm {
 			times = 3
 		}
-		outs := inst.verify(b.Token, who(cc), times, res)
-		want := viewOfJSON(c.Kind, b.SignedP)
+		kind := cc.Kind
+		outs := inst.verify(kind, b.Token, who(cc), times, res)
+		want := viewOfJSON(kind, b.SignedP)
 		var evil map[string]string
 		if b.EvilP != nil {
-			evil = viewOfJSON(c.Kind, b.EvilP)
+			evil = viewOfJSON(kind, b.EvilP)
 		}
+		if kind != c.Kind {
+			res.Label("prov:call-to-other-verifier")
+		}
+		provLabels(c, cl, calls, i, v, res)
 		baseOK := len(v.Reject) == len(uniq(append([]string{}, b.Reject...))) // nothing but the manipulations speaks against the token
 		if baseOK && c.Raw == nil {
 			res.Label("base-acceptable")
@@ -614,7 +705,7 @@ func run(c Case) (res *vkit.Result) {
 				res.Label("grey:" + g)
 			}
 		default:
-			res.Label("must-accept", "must-accept:"+c.Kind, "accept:"+v.AcceptClass)
+			res.Label("must-accept", "must-accept:"+kind, "accept:"+v.AcceptClass)
 			allGrey = false
 		}
 		hist := ""
@@ -658,16 +749,16 @@ func run(c Case) (res *vkit.Result) {
 			}
 			switch {
 			case len(v.Reject) > 0 && o.Accepted:
-				res.Fail("C02:sound:"+c.Kind+":"+strings.Join(v.Reject, "+"), "%s accepted a token that must be rejected (%v)%s; believed %v%s; token %s", c.Kind, v.Reject, callNo, o.View, hist, clipTok(b.Token, hist))
+				res.Fail("C02:sound:"+kind+":"+strings.Join(v.Reject, "+"), "%s%s accepted a token that must be rejected (%v)%s; believed %v%s; token %s", kind, provText(c, cl), v.Reject, callNo, o.View, hist, clipTok(b.Token, hist))
 			case len(v.Reject) == 0 && len(v.Grey) == 0 && !o.Accepted:
-				res.Fail("C02:complete:"+c.Kind+":"+v.AcceptClass, "%s rejected a genuine token signed with an allowed algorithm by a trusted key (%s)%s: %s%s", c.Kind, v.AcceptClass, callNo, o.Err, hist)
+				res.Fail("C02:complete:"+kind+":"+v.AcceptClass, "%s%s rejected a genuine token signed with an allowed algorithm by a trusted key (%s)%s: %s%s", kind, provText(c, cl), v.AcceptClass, callNo, o.Err, hist)
 			}
 			if o.Accepted && !reflect.DeepEqual(o.View, want) {
 				whose := "neither the signed nor the embedded payload"
 				if evil != nil && reflect.DeepEqual(o.View, evil) {
 					whose = "the attacker's embedded payload"
 				}
-				res.Fail("C02:claims-not-signed:"+c.Kind, "%s handed back claims that are not the signed payload%s: got %v (%s), signed %v%s; token %s", c.Kind, callNo, o.View, whose, want, hist, clipTok(b.Token, hist))
+				res.Fail("C02:claims-not-signed:"+kind, "%s handed back claims that are not the signed payload%s: got %v (%s), signed %v%s; token %s", kind, callNo, o.View, whose, want, hist, clipTok(b.Token, hist))
 			}
 		}
 		accepted[i] = len(outs) > 0
@@ -684,6 +775,9 @@ func run(c Case) (res *vkit.Result) {
 		}
 		if i > 0 {
 			keyParts = append(keyParts, fmt.Sprintf("%s>%d|%v|%s|%s|%s|%v|%s", cl.Mut, cl.From, manipNamesOf(cl.Tok), keySetShape(cl.Keys), keySetShape(cl.Keys2), cl.Tok.Alg, cl.Tok.HasKID, verdictClass(v)))
+			if kind != c.Kind {
+				keyParts[len(keyParts)-1] += "|" + kind
+			}
 		}
 	}
 	res.Grey = allGrey
@@ -695,6 +789,10 @@ func run(c Case) (res *vkit.Result) {
 	res.NonTrivial = res.NonTrivial || c.Raw != nil || len(calls) > 1
 	v0, _ := infos[0]["model"].(verdict)
 	res.Key = fmt.Sprintf("%s|%s|%v|%s|%s|%v|%s|%s|%v|%s|%v%v", c.Kind, c.Router, manipNames(c), keySetShape(c.Keys), keySetShape(c.Keys2), c.Algs, c.Tok.Alg, c.Tok.Relation, c.Tok.HasKID, verdictClass(v0), c.Warm, c.SkipRemote) + "|" + c.Tok.Sub + fmt.Sprint(c.MultiKS)
+	if c.Prov != nil {
+		p := c.Prov
+		res.Key += fmt.Sprintf("|prov:%s|%s|%s|%v|%v|%v|%s", provShape(p), keySetShape(p.AccessKS), keySetShape(p.HintKS), p.AccessAlgs, p.HintAlgs, p.Rev, keySetShape(calls[0].Keys))
+	}
 	if c.Raw != nil {
 		res.Key += "|" + string(c.Raw)
 	}
@@ -702,6 +800,86 @@ func run(c Case) (res *vkit.Result) {
 		res.Key += "|seq:" + strings.Join(keyParts, ";")
 	}
 	return res
+}
+
+// provText: how the provider is configured for the verifier of the call (for violation messages).
+func provText(c Case, cl call) string {
+	if c.Prov == nil || !isProv(c.Kind) {
+		return ""
+	}
+	p := c.Prov
+	s := " of a provider built with"
+	n := 0
+	if p.HasAccessKS {
+		s += " WithAccessTokenKeySet" + keySetText(p.AccessKS)
+		n++
+	}
+	if p.HasHintKS {
+		s += " WithIDTokenHintKeySet" + keySetText(p.HintKS)
+		n++
+	}
+	if len(p.AccessAlgs) > 0 {
+		s += fmt.Sprintf(" access-token algs %v", p.AccessAlgs)
+		n++
+	}
+	if len(p.HintAlgs) > 0 {
+		s += fmt.Sprintf(" hint algs %v", p.HintAlgs)
+		n++
+	}
+	if n == 0 {
+		s += " no verification option"
+	}
+	return s + fmt.Sprintf(", storage publishes %s; in force for this verifier: %s key set %s, algs %v;", keySetText(c.Keys), cl.Target, keySetText(cl.Keys), allowedAlgs(Case{Kind: cl.Kind, Algs: c.Algs, Prov: c.Prov}))
+}
+
+// provLabels: classes of the provider-option dimension (is the OTHER verifier configured differently, and would the
+// other configuration have decided differently?).
+func provLabels(c Case, cl call, calls []call, i int, v verdict, res *vkit.Result) {
+	if c.Prov == nil || !isProv(c.Kind) {
+		return
+	}
+	otherKind := kProvAcc
+	if cl.Kind == kProvAcc {
+		otherKind = kProvHint
+	}
+	otherTg := targetOf(c, otherKind)
+	if otherTg != cl.Target {
+		res.Label("prov:verifiers-have-different-key-sets")
+		if cl.Target == "storage" {
+			res.Label("prov:default-set-while-other-verifier-has-custom")
+		}
+	}
+	// the key set in force for the other verifier at this call
+	other := keySets(c)[otherTg]
+	for _, x := range calls[1 : i+1] {
+		if x.Mut != "" && x.Target == otherTg {
+			other = x.Keys
+		}
+	}
+	trusts := func(keys []KeyEntry) bool {
+		for _, e := range keys {
+			if e.Key == cl.Tok.Key && useOK(e) {
+				return true
+			}
+		}
+		return false
+	}
+	if len(cl.Tok.Manips) == 0 {
+		switch {
+		case trusts(other) && !trusts(cl.Keys):
+			res.Label("prov:signer-only-in-other-verifiers-set")
+		case !trusts(other) && trusts(cl.Keys) && len(v.Reject) == 0 && len(v.Grey) == 0:
+			res.Label("prov:must-accept-signer-not-in-other-verifiers-set")
+		}
+		oa := allowedAlgs(Case{Kind: otherKind, Algs: c.Algs, Prov: c.Prov})
+		ma := allowedAlgs(Case{Kind: cl.Kind, Algs: c.Algs, Prov: c.Prov})
+		switch {
+		case contains(oa, cl.Tok.Alg) && !contains(ma, cl.Tok.Alg):
+			res.Label("prov:alg-only-in-other-verifiers-list")
+		case !contains(oa, cl.Tok.Alg) && contains(ma, cl.Tok.Alg) && len(v.Reject) == 0 && len(v.Grey) == 0:
+			res.Label("prov:must-accept-alg-not-in-other-verifiers-list")
+		}
+	}
 }
 
 // history renders the calls made so far on the instance (for violation messages).
@@ -721,6 +899,9 @@ func history(calls []call, accepted []bool) string {
 				s += " / " + keySetText(cl.Keys2)
 			}
 			s += "]"
+		}
+		if cl.Kind != calls[0].Kind {
+			s += " to " + cl.Kind
 		}
 		s += fmt.Sprintf(" %s by %s kid=%q", cl.Tok.Alg, cl.Tok.Key, cl.Tok.KID)
 		if cl.From > 0 {
